@@ -54,7 +54,7 @@ def _may_view(expr, aliases):
     return False
 
 
-def input_mutations(fi, skip_params=('self', 'cls')):
+def _input_mutations_v1(fi, skip_params=('self', 'cls')):
     params = [p for p in fi.params if p not in skip_params]
     a = fi.node.args
     params += [x.arg for x in a.kwonlyargs]
@@ -152,87 +152,118 @@ def _names_load(node):
     return {n.id for n in ast.walk(node) if isinstance(n, ast.Name) and isinstance(n.ctx, ast.Load)}
 
 
-def memo_completeness(db, module_names):
-    """Module-level dict memos: every input the fill block reads must be represented in the key.
+def _is_empty_dict(e):
+    return (isinstance(e, ast.Dict) and not e.keys) or (isinstance(e, ast.Call) and ast.unparse(e.func) in ('dict', 'OrderedDict', 'collections.OrderedDict') and not e.args and not e.keywords)
 
-    Returns [(fi, store stmt, memo name, missing names)] for fills of the form
+
+def memo_completeness(db, module_names):
+    """Dict memos (module-level names and instance attributes initialised to {}): every input the fill block reads must be
+    represented in the key.
+
+    Returns [(fi, store stmt, memo text, missing names)] for fills of the form
         if key not in MEMO: ... MEMO[key] = value        (or try: MEMO[key] except KeyError: ... MEMO[key] = value)
+    where MEMO is a module-level name or `self.attr`.  A key built from a destructured tuple (`a, b, _, c = key`) covers the
+    tuple only if every component is used.
     """
     import builtins
     out = []
     for mn in module_names:
         mod = db.module(mn)
-        memos = {name for name, e in mod.assigns.items() if (isinstance(e, ast.Dict) and not e.keys) or (isinstance(e, ast.Call) and ast.unparse(e.func) in ('dict', 'OrderedDict', 'collections.OrderedDict'))}
-        if not memos:
-            continue
+        mod_memos = {name for name, e in mod.assigns.items() if _is_empty_dict(e)}
         module_level = set(mod.assigns) | set(mod.functions) | set(mod.classes) | set(mod.imports)
-        fns = list(mod.functions.values()) + [m for c in mod.classes.values() for m in c.methods.values()]
-        for fi in fns:
-            params = set(fi.params) | {a.arg for a in fi.node.args.kwonlyargs}
-            local_defs = {}
-            for n in walk_no_nested(fi.node):
-                if isinstance(n, ast.Assign):
-                    for t in n.targets:
-                        for x in ast.walk(t):
-                            if isinstance(x, ast.Name) and isinstance(x.ctx, ast.Store):
-                                local_defs.setdefault(x.id, []).append(n)
-            for n in walk_no_nested(fi.node):
-                block = None
-                keyexpr = None
-                memo = None
-                if isinstance(n, ast.If) and isinstance(n.test, ast.Compare) and len(n.test.ops) == 1 and isinstance(n.test.ops[0], ast.NotIn) \
-                        and isinstance(n.test.comparators[0], ast.Name) and n.test.comparators[0].id in memos:
-                    block, keyexpr, memo = n.body, n.test.left, n.test.comparators[0].id
-                elif isinstance(n, ast.Try) and n.handlers and any(isinstance(s, ast.Subscript) and isinstance(s.value, ast.Name) and s.value.id in memos for st in n.body for s in ast.walk(st)):
-                    for st in n.body:
-                        for s in ast.walk(st):
-                            if isinstance(s, ast.Subscript) and isinstance(s.value, ast.Name) and s.value.id in memos:
-                                memo, keyexpr = s.value.id, s.slice
-                    block = n.handlers[0].body
-                if block is None:
-                    continue
-                stores = [st for st in block for s in ast.walk(st) if isinstance(st, ast.Assign) and isinstance(s, ast.Subscript) and isinstance(s.ctx, ast.Store)
-                          and isinstance(s.value, ast.Name) and s.value.id == memo]
-                if not stores:
-                    continue
-                # closure of the key over local definitions made OUTSIDE the fill block
-                covered = set(_names_load(keyexpr))
-                work = list(covered)
-                blockset = {id(x) for st in block for x in ast.walk(st)}
-                while work:
-                    nm = work.pop()
-                    for d in local_defs.get(nm, []):
-                        if id(d) in blockset:
-                            continue
-                        for y in _names_load(d.value):
-                            if y not in covered:
-                                covered.add(y)
-                                work.append(y)
-                assigned_in_block = {x.id for st in block for x in ast.walk(st) if isinstance(x, ast.Name) and isinstance(x.ctx, ast.Store)}
-                reads = set()
-                for st in block:
-                    reads |= _names_load(st)
-                missing = set()
-                for nm in reads:
-                    if nm in covered or nm in assigned_in_block or nm in module_level or hasattr(builtins, nm) or nm == 'self':
+        groups = [(list(mod.functions.values()), set(mod_memos))]
+        for c in mod.classes.values():
+            attrs = set()
+            for m in c.methods.values():
+                for n in walk_no_nested(m.node):
+                    if isinstance(n, ast.Assign) and _is_empty_dict(n.value):
+                        for t in n.targets:
+                            if isinstance(t, ast.Attribute) and isinstance(t.value, ast.Name) and t.value.id == 'self':
+                                attrs.add('self.' + t.attr)
+            groups.append((list(c.methods.values()), set(mod_memos) | attrs))
+        for fns, memos in groups:
+            if not memos:
+                continue
+            for fi in fns:
+                out.extend(_memo_fills(fi, memos, module_level, builtins))
+    return out
+
+
+def _memo_fills(fi, memos, module_level, builtins):
+    out = []
+    params = set(fi.params) | {a.arg for a in fi.node.args.kwonlyargs}
+    local_defs = {}
+    for n in walk_no_nested(fi.node):
+        if isinstance(n, ast.Assign):
+            for t in n.targets:
+                for x in ast.walk(t):
+                    if isinstance(x, ast.Name) and isinstance(x.ctx, ast.Store):
+                        local_defs.setdefault(x.id, []).append(n)
+
+    def memo_of(node):
+        t = ast.unparse(node)
+        return t if t in memos else None
+
+    for n in walk_no_nested(fi.node):
+        block = keyexpr = memo = None
+        if isinstance(n, ast.If) and isinstance(n.test, ast.Compare) and len(n.test.ops) == 1 and isinstance(n.test.ops[0], ast.NotIn) and memo_of(n.test.comparators[0]):
+            block, keyexpr, memo = n.body, n.test.left, memo_of(n.test.comparators[0])
+        elif isinstance(n, ast.Try) and n.handlers:
+            for st in n.body:
+                for sub in ast.walk(st):
+                    if isinstance(sub, ast.Subscript) and memo_of(sub.value):
+                        memo, keyexpr = memo_of(sub.value), sub.slice
+            if memo:
+                block = n.handlers[0].body
+        if block is None:
+            continue
+        stores = [st for st in block for sub in ast.walk(st) if isinstance(st, ast.Assign) and isinstance(sub, ast.Subscript) and isinstance(sub.ctx, ast.Store) and memo_of(sub.value) == memo]
+        if not stores:
+            continue
+        blockset = {id(x) for st in block for x in ast.walk(st)}
+        # closure of the key over local definitions made OUTSIDE the fill block; tuple-unpacks cover their source only when complete
+        covered = set(_names_load(keyexpr))
+        partial = {}            # source name -> unused components
+        changed = True
+        while changed:
+            changed = False
+            for nm in list(covered):
+                for d in local_defs.get(nm, []):
+                    if id(d) in blockset:
                         continue
-                    # a local defined outside the block: trace to parameters
-                    srcs = {nm}
-                    seen = set()
-                    while srcs:
-                        z = srcs.pop()
-                        if z in seen:
+                    tgt = d.targets[0]
+                    if isinstance(tgt, (ast.Tuple, ast.List)) and isinstance(d.value, ast.Name):
+                        comps = [e.id if isinstance(e, ast.Name) else ast.unparse(e) for e in tgt.elts]
+                        unused = [c for c in comps if c not in covered]
+                        if unused:
+                            partial[d.value.id] = unused
                             continue
-                        seen.add(z)
-                        if z in params and z not in covered:
-                            missing.add(z)
-                        for d in local_defs.get(z, []):
-                            if id(d) not in blockset:
-                                srcs |= (_names_load(d.value) - covered)
-                if missing:
-                    out.append((fi, stores[0], memo, sorted(missing)))
-                else:
-                    out.append((fi, stores[0], memo, []))
+                        partial.pop(d.value.id, None)
+                    for y in _names_load(d.value):
+                        if y not in covered:
+                            covered.add(y)
+                            changed = True
+        assigned_in_block = {x.id for st in block for x in ast.walk(st) if isinstance(x, ast.Name) and isinstance(x.ctx, ast.Store)}
+        reads = set()
+        for st in block:
+            reads |= _names_load(st)
+        missing = set()
+        for nm in reads:
+            if nm in covered or nm in assigned_in_block or nm in module_level or hasattr(builtins, nm) or nm == 'self':
+                continue
+            srcs = {nm}
+            seen = set()
+            while srcs:
+                z = srcs.pop()
+                if z in seen:
+                    continue
+                seen.add(z)
+                if z in params and z not in covered:
+                    missing.add(z if z not in partial else '%s (component %s not in the memo key)' % (z, ', '.join(partial[z])))
+                for d in local_defs.get(z, []):
+                    if id(d) not in blockset:
+                        srcs |= (_names_load(d.value) - covered)
+        out.append((fi, stores[0], memo, sorted(missing)))
     return out
 
 
@@ -257,7 +288,14 @@ def _stored_names(stmts):
     return out
 
 
-def shared_entry_mutations(fi, sites=None):
+def input_mutations(fi, skip_params=('self', 'cls')):
+    """In-place writes through a name that may alias a parameter (may-alias, joined over branches and loops).
+    Returns [(stmt, text of the written name)]."""
+    params = [p for p in fi.params if p not in skip_params] + [x.arg for x in fi.node.args.kwonlyargs]
+    return [(st, nm) for st, nm, _ in shared_entry_mutations(fi, init={p: p for p in params}, tables=False)]
+
+
+def shared_entry_mutations(fi, sites=None, init=None, tables=True):
     """In-place writes through a name that may alias an entry of a table shared between loop iterations.
 
     Inside a `for` loop, `v = T[i][j]` (T bound outside the loop, basic/int/key indexing: the same object or a view)
@@ -283,7 +321,7 @@ def shared_entry_mutations(fi, sites=None):
         if isinstance(v, ast.Name):
             return st.get(v.id)
         ch = _sub_chain(v)
-        if ch is not None and ctx is not None:
+        if ch is not None and ctx is not None and tables:
             root, idxs = ch
             loop_stores, uniq = ctx
             if root in st:
@@ -378,7 +416,7 @@ def shared_entry_mutations(fi, sites=None):
                                     found.append((s, ast.unparse(k.value), r))
         return st
 
-    block(fi.node.body, {}, None)
+    block(fi.node.body, dict(init or {}), None)
     # de-duplicate (the loop body is walked twice)
     seen, out = set(), []
     for s, nm, r in found:
